@@ -12,7 +12,7 @@ case "$PATCH" in
     *) git apply "$PATCH" || { echo "{\"name\":\"$NAME\",\"error\":\"patch does not apply\"}"; exit 2; } ;;
 esac
 SUITE=pass
-CARGO_NET_OFFLINE=true CARGO_TARGET_DIR="$LAB/repo-target" cargo test --workspace --no-fail-fast --offline >"$LAB/suite.log" 2>&1 || SUITE=fail
+CARGO_NET_OFFLINE=true CARGO_TARGET_DIR="$LAB/repo-target" timeout 600 cargo test --workspace --no-fail-fast --offline >"$LAB/suite.log" 2>&1 || SUITE=fail   # (a suite that hangs counts as failing)
 RES=""
 for ID in $IDS; do
     ( cd "$LAB/verif" && ./bin/check "$ID" "$TIER" >"$LAB/check-$ID.log" 2>&1 )
